@@ -220,3 +220,8 @@ LEVEL_NOTE = ("Go map order / goroutine schedule enter only as a permutation of 
               "the PARALLEL variants cannot be exhibited by the model: that is C13's obligation. STRAIGHT_JOIN on LEFT/RIGHT is an "
               "error by design.")
 TECHNIQUE = "Lean 4 proof (List.Perm reasoning over catalogue groups) + differential correspondence"
+
+# the text of the functions this property's model mirrors is a regenerated fact (Obligations/PinC04: closed by rfl)
+FACTS = True
+LEAN_TARGETS = list(LEAN_TARGETS) + ["Genql.Obligations.PinC04"]
+THEOREMS = list(THEOREMS) + ["Genql.Obligations.PinC04.pinned_text"]
